@@ -940,13 +940,21 @@ def c07(ctx):
                           "event_every": 500, "event_cap": 2000, "nontrivial_min_ops": 1, "scope": SCOPE_C07}, evals=["dec"], invs=[], compose={"quick": (4, 3), "thorough": (4, 4), "chains": {"quick": (6, 8, 40), "thorough": (200, 10, 60)}, "join": {"quick": (3, 3), "thorough": (3, 4)}},
                          sem={"dec": {"quick": (2, 1, 3, 3), "thorough": (2, 2, 4, 1)}, "invs": ("C07Exact",)})
 
+def cpx_fn_jobs(ctx, profile, _memo={}):
+    """the function sweep of C10 restricted to eval_complex (every spelling on the argument samples, the boundary grids, powers of negative real bases)"""
+    if "r" not in _memo:
+        vlib.vocab_json()
+        _memo["r"] = simple_model(ctx, "MCVocab", "INIT Init\nNEXT Next\nCHECK_DEADLOCK FALSE\nINVARIANT Spelled ConstSpelled NeedsParen Emit\n", "vocab")
+    return [dict(base_job(ctx, "replay", "%s_cfn_%d" % (profile, sh), profile, beh=_memo["r"]["beh_path"], e="f64", shard=sh, nshards=4, only_evaluator="cpx",
+                          samples_per_pair=100 if ctx.quick() else 10000, event_every=0, event_cap=0)) for sh in range(4)]
+
 def c08(ctx):
     q = ctx.quick()
     return grammar_check(ctx, {"value", "ok_on_semantic_err", "err_on_defined", "ok_on_reject"}, {"*": 5}, {"*": 6},
                          [{"assignments": 3, "all_functions": True, "each_function": True, "cpx_generic": True, "full_placeholders": False, "event_every": 300, "event_cap": 2000, "nontrivial_min_ops": 1},
                           {"assignments": 2, "event_every": 300, "event_cap": 1000, "nontrivial_min_ops": 1}],
                          evals=["cpx"], invs=[], lexer={"alphabets": ["lit", "kw2"], "k_quick": 3, "k_thorough": 5},
-                         extra_jobs=lambda profile: [base_job(ctx, "fnpairs", "%s_pairs_cpx" % profile, profile, e="cpx", event_every=40, event_cap=600)],
+                         extra_jobs=lambda profile: [base_job(ctx, "fnpairs", "%s_pairs_cpx" % profile, profile, e="cpx", event_every=40, event_cap=600)] + cpx_fn_jobs(ctx, profile),
                          sem={"dec": {"quick": (1, 1, 4, 1), "thorough": (1, 1, 7, 1)}, "invs": ("C08Exact",)})
 
 def c10(ctx):
@@ -987,6 +995,9 @@ def c15(ctx):
         for sh in range(4):
             js.append(base_job(ctx, "cross", "%s_numvocab_%d" % (profile, sh), profile, pair="num-f64-vocab", beh=vr["beh_path"], shard=sh, nshards=4, event_every=200, event_cap=1000))
         js.append(base_job(ctx, "cross", "%s_cpxops" % profile, profile, pair="cpx-f64-ops", samples_per_pair=150 if q else 20000, event_every=50, event_cap=1500))
+        # character level: every short string of eval_number's lexer models (white space of every kind, also inside literals and names) in both clauses
+        for an in ["lit", "kw2", "kw3"]:
+            js.append(base_job(ctx, "cross", "%s_chars_%s" % (profile, an), profile, pair="chars", beh=lex["lex_num_%s" % an]["beh_path"], event_every=100, event_cap=600))
         return js
     f, s = run_jobs(ctx, jobs)
     allm = list(lex.values()) + list(models.values()) + [vr, semr]
